@@ -39,7 +39,7 @@ DEFAULT_WEIGHTS = dict(set=14, add=6, touch=4, incr=6, get=14, contains=4, pop=4
 
 
 def random_history(rng, n, keys, vals, weights=None, ttls=((), (), (), (0,), (1,), (2,), (5,), (-1,), (1000,)),
-                   tags=(0, 0, 1, 2, 3), prefixes=((), (97,), (98,), (97, 45, 53), (97, 45))):
+                   tags=(0, 0, 1, 2, 3), prefixes=((), (), (97,), (98,), (97, 45, 53), (97, 45), (-1,))):
     w = dict(DEFAULT_WEIGHTS)
     if weights:
         w.update(weights)
